@@ -93,6 +93,9 @@ func scenario(name string) *World {
 	if w := hierScenario(name); w != nil {
 		return w
 	}
+	if w := sizedScenario(name); w != nil {
+		return w
+	}
 	switch name {
 	case "lasso-consolidating-reclaim":
 		// KNOWN FINDING C15-rebound-pod-evicted-again, shape I (found by exploration, seed 7 general case 589):
@@ -239,6 +242,9 @@ func Probe(name string) string {
 	if n, _ := fmt.Sscanf(name, "hier:%d:%d", &seed, &idx); n == 2 {
 		w = GenHier(u.NewRng(seed ^ hierSalt).Fork(uint64(idx)))
 	}
+	if n, _ := fmt.Sscanf(name, "sized:%d:%d", &seed, &idx); n == 2 {
+		w = GenSized(u.NewRng(seed ^ sizedSalt).Fork(uint64(idx)))
+	}
 	if strings.HasPrefix(name, "file:") {
 		// a world written as JSON (the World struct), e.g. the "world" of an entry of .work/C15-known.json
 		data, err := os.ReadFile(strings.TrimPrefix(name, "file:"))
@@ -282,6 +288,9 @@ func Explore(stream string, seed uint64, n int, verbose bool) string {
 	if stream == "hier" {
 		root = u.NewRng(seed ^ hierSalt)
 	}
+	if stream == "sized" {
+		root = u.NewRng(seed ^ sizedSalt)
+	}
 	type res struct {
 		out string
 		st  map[string]int
@@ -289,6 +298,13 @@ func Explore(stream string, seed uint64, n int, verbose bool) string {
 	var fam []*World
 	if stream == "hierfam" {
 		fam = hierFamily()
+		n = len(fam)
+	}
+	if stream == "sizedfam" {
+		for _, name := range sizedCorpus {
+			fam = append(fam, scenario(name))
+		}
+		fam = append(fam, sizedFamily()...)
 		n = len(fam)
 	}
 	results := make([]res, n)
@@ -305,8 +321,10 @@ func Explore(stream string, seed uint64, n int, verbose bool) string {
 				st := map[string]int{}
 				r := root.Fork(uint64(i))
 				var w *World
-				if stream == "hierfam" {
+				if stream == "hierfam" || stream == "sizedfam" {
 					w = fam[i]
+				} else if stream == "sized" {
+					w = GenSized(r)
 				} else if stream == "class" {
 					w = GenClass(r, true)
 				} else if stream == "class-shaped" {
@@ -322,7 +340,7 @@ func Explore(stream string, seed uint64, n int, verbose bool) string {
 				st[fmt.Sprintf("cycles=%d", len(tr.Cycles))]++
 				if tr.LassoFrom >= 0 {
 					st["LASSO"]++
-					tags := lassoTags(w0, tr)
+					tags := lassoTags(w0, tr) + " " + lassoShape(tr)
 					st["LASSO"+tags]++
 					out += fmt.Sprintf("LASSO case %d:%s %s\n%s", i, tags, Describe(w0), tr.Dump())
 				}
@@ -344,6 +362,24 @@ func Explore(stream string, seed uint64, n int, verbose bool) string {
 				for _, c := range tr.Cycles {
 					if c.Panic != "" {
 						st["PANIC"]++
+					}
+					st["size:partial-placement"] += c.Partial
+					for _, o := range c.Sizes {
+						tag := "consistent"
+						if o.Undercounted() {
+							tag = "UNDERCOUNTED"
+							out += fmt.Sprintf("UNDERCOUNTED case %d: %s\n  %s\n", i, Describe(w0), sizesDesc([]SizeObs{o}))
+						} else if o.Overcounted() {
+							tag = "OVERCOUNTED"
+							out += fmt.Sprintf("OVERCOUNTED case %d: %s\n  %s\n", i, Describe(w0), sizesDesc([]SizeObs{o}))
+						} else if !o.Homogeneous {
+							tag = "not-undercounted(other-device-memory)"
+						}
+						ev := ""
+						if o.Evicting {
+							ev = ":evicting"
+						}
+						st["size:"+o.Kind+":"+o.Action+ev+":"+tag]++
 					}
 					for _, cl := range c.Calls {
 						st["call:"+cl.Kind+":"+cl.Action]++
@@ -377,4 +413,41 @@ func Explore(stream string, seed uint64, n int, verbose bool) string {
 		out += fmt.Sprintf("%-40s %d\n", k, st[k])
 	}
 	return out
+}
+
+// lassoShape names the form of a lasso from the committed calls inside the loop (exploration aid for classifying lassos
+// against known finding C15-rebound-pod-evicted-again): REBOUND-SAME-CYCLE = a pod is bound by allocate and evicted
+// again in the same cycle (the period-1 form of the finding); MOVED-BACK = a pod is evicted and pipelined (moved) in
+// one cycle and bound again in a later cycle of the loop (the period-2 form); OTHER = neither.
+func lassoShape(tr *Trace) string {
+	same, moved := false, false
+	evictedEarlier := map[string]bool{}
+	for c := tr.LassoFrom; c <= tr.LassoTo && c < len(tr.Cycles); c++ {
+		bound := map[string]bool{}
+		for _, cl := range tr.Cycles[c].Calls {
+			switch cl.Kind {
+			case "bind":
+				bound[cl.Pod] = true
+				if evictedEarlier[cl.Pod] {
+					moved = true
+				}
+			case "evict":
+				if bound[cl.Pod] {
+					same = true
+				}
+			}
+		}
+		for _, cl := range tr.Cycles[c].Calls {
+			if cl.Kind == "evict" {
+				evictedEarlier[cl.Pod] = true
+			}
+		}
+	}
+	switch {
+	case same:
+		return "REBOUND-SAME-CYCLE"
+	case moved:
+		return "MOVED-BACK"
+	}
+	return "OTHER"
 }
